@@ -4,6 +4,11 @@ use std::path::{Path, PathBuf};
 
 use serde_json::{json, Value};
 
+/// Debugging aid: `PEARL_MC_PART=<engine>` restricts a multi-engine check to one of its parts.
+pub fn part_enabled(name: &str) -> bool {
+    std::env::var("PEARL_MC_PART").map_or(true, |p| p == name)
+}
+
 pub fn verif_root() -> PathBuf {
     std::env::var("VERIF_ROOT").map(PathBuf::from).unwrap_or_else(|_| PathBuf::from("/verif"))
 }
@@ -62,7 +67,12 @@ impl Report {
             "machinery_errors": self.machinery_errors,
         });
         let path = root.join("evidence").join(format!("{}.json", self.property));
-        std::fs::write(&path, serde_json::to_string_pretty(&ev).unwrap()).expect("write evidence");
+        if let Ok(part) = std::env::var("PEARL_MC_PART") {
+            // debugging aid: only one engine of the check was run; not evidence
+            println!("PARTIAL run (PEARL_MC_PART={part}): evidence file left untouched");
+        } else {
+            std::fs::write(&path, serde_json::to_string_pretty(&ev).unwrap()).expect("write evidence");
+        }
         for (k, what) in &self.known {
             println!("KNOWN-FINDING: property={} {} [{}]", self.property, what, k);
         }
